@@ -23,6 +23,8 @@ impl<M: MovingAverageConstructor> RelativeVigorIndex<M> {
 //@end
 //@extract src/indicators/relative_vigor_index.rs impl[IndicatorConfig for RelativeVigorIndex<M>]::init pub
 //@sig pub fn init<T: OHLCV>(self, candle: &T) -> (r: Result<RelativeVigorIndexInstance<M>, Error>)
+	// SWMA computes its weight sums in 32 bits: lengths above 2^32 exist only under period_type_u64
+	requires (self.period2 as int) <= 0xffff_ffff
 	ensures
 		!self.valid() ==> r is Err,
 		r is Ok ==> r->Ok_0.inv() && r->Ok_0.cfg == self,
